@@ -355,6 +355,35 @@ pub struct TypeCase {
     pub gen: fn(&mut Rng) -> String,
 }
 
+/// owned targets: the result must not depend on the input buffer after the call (the private copy of
+/// the input is overwritten and freed before the comparison with the model's value)
+fn run_owned<T: serde::de::DeserializeOwned + PartialEq + Debug>(ctx: &mut Ctx, name: &str, s: &[u8]) {
+    let Ok(Ok(b)) = crate::core::guarded(|| serde_json::from_slice::<T>(s)) else { return };
+    ctx.ops(1);
+    match crate::mon::common::parse_then_discard(s, |c| sonic_rs::from_slice::<T>(c)) {
+        Ok(a) => {
+            ctx.class("owned:compared-after-input-discard");
+            if a != b {
+                ctx.fail(&format!("owned-value-depends-on-input:{}", name), format!("from_slice::<{}>({:?}) read after the input was overwritten and freed: {:?}, model {:?}", name, crate::core::truncate(&String::from_utf8_lossy(s), 160), a, b));
+            }
+        }
+        Err(_) => {}
+    }
+}
+
+macro_rules! tco {
+    ($name:expr, $t:ty, $gen:expr) => {
+        TypeCase {
+            name: $name,
+            run: |ctx, s| {
+                run_t::<$t>(ctx, $name, s);
+                run_owned::<$t>(ctx, $name, s);
+            },
+            gen: $gen,
+        }
+    };
+}
+
 macro_rules! tc {
     ($name:expr, $t:ty, $gen:expr) => {
         TypeCase { name: $name, run: |ctx, s| run_t::<$t>(ctx, $name, s), gen: $gen }
@@ -455,7 +484,7 @@ pub fn types() -> Vec<TypeCase> {
         TypeCase { name: "f32", run: |ctx, s| run_f32(ctx, s), gen: |r| if r.chance(1, 2) { numlit::hostile(r) } else { js(&crate::gen::dynval::rand_f32(r)) } },
         tc!("bool", bool, |r| (*r.pick(&["true", "false", "1", "\"true\"", "null"])).to_string()),
         tc!("char", char, |r| js(&*r.pick(&["a", "é", "日", "😀", "", "ab", "\n", "\u{0}"]))),
-        tc!("String", String, |r| {
+        tco!("String", String, |r| {
             let t = rs(r);
             let mut g = doc::Gen::new(r, doc::DocOpts::default());
             g.write_string(&t);
@@ -477,9 +506,9 @@ pub fn types() -> Vec<TypeCase> {
         tc!("Pair", Pair, |r| js(&Pair(r.next() as i32, rs(r)))),
         tc!("[u16;3]", [u16; 3], |r| js(&[r.next() as u16, 0, 65535])),
         tc!("Vec<i64>", Vec<i64>, |r| js(&(0..r.range(0, 6)).map(|_| r.next() as i64 >> r.below(64)).collect::<Vec<_>>())),
-        tc!("Vec<Vec<String>>", Vec<Vec<String>>, |r| js(&(0..r.range(0, 3)).map(|_| (0..r.range(0, 3)).map(|_| rs(r)).collect::<Vec<_>>()).collect::<Vec<_>>())),
-        tc!("HashMap<String,i32>", HashMap<String, i32>, |r| js(&(0..r.range(0, 5)).map(|_| (rs(r), r.next() as i32)).collect::<HashMap<_, _>>())),
-        tc!("BTreeMap<i32,String>", BTreeMap<i32, String>, |r| js(&(0..r.range(0, 5)).map(|_| (r.next() as i32 >> r.below(32), rs(r))).collect::<BTreeMap<_, _>>())),
+        tco!("Vec<Vec<String>>", Vec<Vec<String>>, |r| js(&(0..r.range(0, 3)).map(|_| (0..r.range(0, 3)).map(|_| rs(r)).collect::<Vec<_>>()).collect::<Vec<_>>())),
+        tco!("HashMap<String,i32>", HashMap<String, i32>, |r| js(&(0..r.range(0, 5)).map(|_| (rs(r), r.next() as i32)).collect::<HashMap<_, _>>())),
+        tco!("BTreeMap<i32,String>", BTreeMap<i32, String>, |r| js(&(0..r.range(0, 5)).map(|_| (r.next() as i32 >> r.below(32), rs(r))).collect::<BTreeMap<_, _>>())),
         tc!("BTreeMap<u64,bool>", BTreeMap<u64, bool>, |r| js(&(0..r.range(0, 5)).map(|_| (r.next() >> r.below(64), r.chance(1, 2))).collect::<BTreeMap<_, _>>())),
         tc!("BTreeMap<i128,u8>", BTreeMap<i128, u8>, |r| js(&(0..r.range(0, 3)).map(|_| ((r.next() as i128) << r.below(60), r.next() as u8)).collect::<BTreeMap<_, _>>())),
         tc!("BTreeMap<bool,u8>", BTreeMap<bool, u8>, |r| (*r.pick(&["{\"true\":1}", "{\"false\":0,\"true\":2}", "{}", "{\"True\":1}", "{\"1\":1}"])).to_string()),
@@ -490,8 +519,8 @@ pub fn types() -> Vec<TypeCase> {
         tc!("Fieldless", Fieldless, |r| js(&fieldless(r))),
         tc!("Shapes", Shapes, |r| js(&shapes(r))),
         tc!("Payloads", Payloads, |r| js(&payloads(r))),
-        tc!("Vec<Payloads>", Vec<Payloads>, |r| js(&(0..r.range(0, 4)).map(|_| payloads(r)).collect::<Vec<_>>())),
-        tc!("Wrappers", Wrappers, |r| {
+        tco!("Vec<Payloads>", Vec<Payloads>, |r| js(&(0..r.range(0, 4)).map(|_| payloads(r)).collect::<Vec<_>>())),
+        tco!("Wrappers", Wrappers, |r| {
             let w = Wrappers {
                 u: Unit,
                 n: Newtype(r.next() as i32),
@@ -518,7 +547,7 @@ pub fn types() -> Vec<TypeCase> {
             1 => format!("[{}]", numlit::hostile(r)),
             _ => String::from_utf8_lossy(&doc::gen_any(r)).into_owned(),
         }),
-        tc!("Plain", Plain, |r| js(&plain(r))),
+        tco!("Plain", Plain, |r| js(&plain(r))),
         tc!("Defaults", Defaults, |r| {
             let d = Defaults { a: r.next() as i32, b: if r.chance(1, 2) { Some(rs(r)) } else { None }, c: vec![r.next() as i64] };
             let mut v = serde_json::to_value(&d).unwrap();
@@ -542,7 +571,7 @@ pub fn types() -> Vec<TypeCase> {
             let s = if esc { "a\\nb".to_string() } else { "plain".to_string() };
             format!("{{\"s\":\"{}\",\"c\":\"{}\",\"n\":{}}}", if r.chance(1, 2) { "x y" } else { &s }, s, r.below(70000))
         }),
-        tc!("Nested", Nested, |r| {
+        tco!("Nested", Nested, |r| {
             let n = Nested { p: plain(r), e: shapes(r), m: (0..r.range(0, 3)).map(|_| (rs(r), F64(crate::gen::dynval::rand_f64(r)))).filter(|(_, f)| f.0.is_finite()).collect(), t: (r.next() as u8, r.next() as i8, r.chance(1, 2)) };
             js(&n)
         }),
@@ -552,7 +581,7 @@ pub fn types() -> Vec<TypeCase> {
         tc!("Adjacent", Adjacent, |r| (*r.pick(&["{\"t\":\"A\",\"c\":1}", "{\"c\":1,\"t\":\"A\"}", "{\"t\":\"B\",\"c\":[\"s\",true]}", "{\"t\":\"B\",\"c\":[\"s\"]}", "{\"t\":\"A\"}", "[\"A\",1]"])).to_string()),
         TypeCase { name: "ByteBuf", run: |ctx, s| run_bytebuf(ctx, s), gen: |r| if r.chance(1, 2) { js(&(0..r.range(0, 6)).map(|_| r.next() as u8).collect::<Vec<u8>>()) } else { js(&rs(r)) } },
         tc!("Box<[i8]>", Box<[i8]>, |r| js(&(0..r.range(0, 6)).map(|_| r.next() as i8).collect::<Vec<i8>>())),
-        tc!("serde_json::Value", serde_json::Value, |r| String::from_utf8_lossy(&doc::gen_any(r)).into_owned()),
+        tco!("serde_json::Value", serde_json::Value, |r| String::from_utf8_lossy(&doc::gen_any(r)).into_owned()),
     ]
 }
 
@@ -622,6 +651,6 @@ impl Check for C04 {
         ctx.sample(t.name);
     }
     fn required_classes(&self, _b: &str, _t: Tier) -> Vec<&'static str> {
-        vec!["outcome:both-ok", "outcome:both-err", "type:u128", "type:Untagged", "type:Flat", "type:Borrowing", "type:Shapes", "type:ByteBuf", "bytes-literal:not-utf8", "bytes-literal:utf8", "type:Known+skipped", "type:IgnoredAny"]
+        vec!["outcome:both-ok", "outcome:both-err", "type:u128", "type:Untagged", "type:Flat", "type:Borrowing", "type:Shapes", "type:ByteBuf", "bytes-literal:not-utf8", "bytes-literal:utf8", "type:Known+skipped", "type:IgnoredAny", "owned:compared-after-input-discard"]
     }
 }
